@@ -101,6 +101,26 @@ CLAIMED = {
                  "form with per-sample broadcasting; two-hot weights (1-w, w) at adjacent indices with the interpolation weight (rows sum to one and decode to x by construction).",
         "note": "NOT decided: the two-hot lower-edge search (masked argmin over float differences, exact bin edges), monotonicity of linspace, float rounding.",
     },
+    "C02": {
+        "technique": "static analysis: normal forms of the ring-state updates, store-before-advance ordering on the CFG, structural single-index-vector and index-bound rules for every sample_batch, routing rules of the multi-task buffer",
+        "level": "Decides the five premises of the ring-buffer induction (stores at the current insert index, before the advance; advance = (i+1) mod N; len = min(len+1, N); allocation only when empty) for the base "
+                 "buffer that LAP / PER inherit, that every batch gathers all fields with one index vector drawn from [0, current_len) (or from a priority sampler restricted to current_len), and the multi-task routing / "
+                 "validation / length rules. The FIFO statement follows from the premises by a stated induction.",
+        "note": "Trusted: the induction argument, numpy integer sampling and gather semantics. Not decided: dtype conversion values, behaviour for buffer_size <= 0.",
+    },
+    "C04": {
+        "technique": "static analysis: necessary structural conditions of the subtrajectory mask protocol (CFG ordering, guard/offset agreement by normal form, branch orientation, index formula, field table)",
+        "level": "NECESSARY CONDITIONS ONLY: mask cleared at every written slot before the advance (incl. the successor row); enabling store offset == strict guard threshold == horizon; tail enabled on termination / disabled on "
+                 "truncation over min(episode_len, horizon) slots with the episode counter reset; start indices only from mask_ (uniform and PER); window indices (start + arange(h)) mod current_len; no-intermediate field table.",
+        "note": "The behavioural statement (every sampled window is a contiguous single-episode run for all add histories) is modular index arithmetic over arbitrary histories and is NOT decided; sufficiency of the six conditions is not claimed.",
+    },
+    "C08": {
+        "technique": "static analysis: attribute-ownership (receiver class) analysis of the last-sampled-indices field, CFG ordering of priority initialisation vs ring advance, per-path normal forms of the samplers, formula identities, typestate (sample -> update -> update_priority) over the training-loop CFGs",
+        "level": "Decides for all operation histories / inputs (ownership, ordering, formula identity): the field update_priority reads is written on the PriorityBuffer by every sampler; new samples get max_priority at the slot "
+                 "they are written to; samplers are searchsorted(cumsum(p[:len]*mask[:len]), u*total) (plain and stratified); update/reset bookkeeping; LAP / PER priority and importance-ratio formulas; in the four loops the priorities come from the "
+                 "TD errors of the update that consumed the most recent batch of that buffer, with no resampling in between.",
+        "note": "Trusted: inverse-CDF property of cumsum/searchsorted, U[0,1). Not decided: floating-point ties of u*total with a cumulative sum, sampling frequencies.",
+    },
 }
 
 NOT_APPLICABLE = {}
